@@ -37,7 +37,7 @@ class P(vlib.Prop):
     instance_obligations = []
     harness_module = "C13.Harness"
     case_type = "vcase"
-    shard = 120
+    shard = 60
     harnesses = [
         vlib.Harness("walk", "confmap/xconfmap", ".", {"zz_verif_c13_test.go": "C13/walk_test.go"},
                      "^TestVerifC13Walk$", "xconfmap"),
@@ -51,6 +51,8 @@ class P(vlib.Prop):
                       "zz_verif_c13_whole_test.go": "C13/whole_test.go",
                       "zz_verif_c13_schema_common_test.go": "C13/schema_common_test.go"},
                      "^TestVerifC13Decode$", "main"),
+        vlib.Harness("enc", "confmap", ".", {"zz_verif_c13_test.go": "C13/enc_test.go"},
+                     "^TestVerifC13Enc$", "confmap"),
         vlib.Harness("notify", "service", "./extensions/", {"zz_verif_c13_test.go": "C13/notify_test.go"},
                      "^TestVerifC13Notify$", "extensions"),
     ]
@@ -70,6 +72,7 @@ class P(vlib.Prop):
             "A case is non-trivial when an error is reported / a key is written / two watchers are notified; distinct = distinct case terms.")
     trusted_base = [
         "Coq 8.16.1 kernel + vm_compute (coqc); no axioms (Print Assumptions: closed under the global context)",
+        "translator T1 (tools/go2coq): telemetry.Config.Validate and the configtelemetry.Level constants from the current source",
         "translator T3 (harness/C13/schema_*_test.go): reflect over the config types of components() in the current tree -> Generated/C13CfgSchema.v",
         "Go harnesses harness/C13/*.go + go test -overlay; Go toolchain; Go reflect",
         "modelled by hand, tied by correspondence: xconfmap.validate/callValidateIfPossible/fieldName/stringifyMapKey/pathError, "
@@ -88,6 +91,12 @@ class P(vlib.Prop):
     ]
 
     def translate(self, ctx):
+        # T1 (go2coq): the loop-free decision code of the anchored files, re-read from the source on every run
+        vlib.go2coq(ctx, "service", os.path.join(vlib.VERIF, "props", "C13", "t1_telemetry.json"), "C13Telemetry")
+        vlib.go2coq(ctx, "config/configtelemetry", os.path.join(vlib.VERIF, "props", "C13", "t1_levels.json"), "C13Levels")
+        self.translate_t3(ctx)
+
+    def translate_t3(self, ctx):
         """T3 (cfgschema): run the reflection dump against the current tree, rewrite
         coq/Generated/C13CfgSchema.v only when its content changed."""
         pkgdir = os.path.join(vlib.REPO, "cmd", "otelcorecol")
